@@ -1663,7 +1663,8 @@ def r_gen_range(P, L, s, d):
                 why.append("%s passes %s" % (b.name, a[1]))
                 continue
             start, end = int(m.group(1)), m.group(2)
-            if not any(x[0] == "Gt" and x[1] == end and re.fullmatch(r"-?\d+", x[2]) and int(x[2]) >= start for x in g):
+            # `end > k` with k >= start, or (integers) `end >= k` with k > start: `max > 1`, `!(max <= 1)`, `!(max < 2)` alike
+            if not any(x[1] == end and re.fullmatch(r"-?\d+", str(x[2])) and ((x[0] == "Gt" and int(x[2]) >= start) or (x[0] == "Ge" and int(x[2]) > start)) for x in g):
                 good = False
                 why.append("%s: no dominating `%s > %d` test" % (b.name, end, start))
         return (good, "every caller passes start..end under a dominating end > start test" if good else "; ".join(why))
